@@ -87,7 +87,7 @@ HostSplitLaw ==
     fn = "parse_host" =>
         LET bracket == s # <<>> /\ s[1] = LBR
             h == IF bracket THEN <<LBR>> \o out \o <<RBR>> ELSE out
-        IN  /\ port = NoPort => s = h
+        IN  /\ port = NoPort => (s = h \/ s = EmptyPort(h))
             /\ port # NoPort => \E k \in 1..Len(s) : /\ s[k] = COLON /\ SubSeq(s, 1, k - 1) = h
                                                       /\ AllDigits(SubSeq(s, k + 1, Len(s)))
                                                       /\ NatOf(SubSeq(s, k + 1, Len(s))) = port
@@ -99,6 +99,8 @@ HostIndependentOfPort ==
     (fn = "parse_host" /\ ValidHostForm(s)) =>
         LET b == BareAuthority(s) IN
         /\ ParseHost(b).host = out /\ ParseHost(b).port = NoPort
+        /\ ValidHostForm(EmptyPort(b))                                    \* "host:" - an empty port: same host, no number
+        /\ ParseHost(EmptyPort(b)).host = out /\ ParseHost(EmptyPort(b)).port = NoPort
         /\ \A p \in {<<48>>, <<56, 48>>, <<54, 53, 53, 51, 53>>} :
               /\ ValidHostForm(Authority(b, p))
               /\ ParseHost(Authority(b, p)).host = out /\ ParseHost(Authority(b, p)).port = NatOf(p)
